@@ -112,7 +112,9 @@ def malformed_case(draw, tier):
             "all_junk": draw(st.booleans()),
             "zero_matrix": draw(st.sampled_from([False, False, True])),
             "form": draw(st.sampled_from(["ndarray", "csr", "lists",
-                                          "dict"])),
+                                          "dict", "list_arrays",
+                                          "list_sparse", "list_dicts",
+                                          "csc", "coo", "ndarray_int"])),
             "rows": None}
 
 
@@ -284,7 +286,11 @@ def check_adjacency(case, rec):
         arg = "\n".join(lines)
     else:
         arg = io.StringIO("\n".join(lines) + "\n")
+    held = list(arg) if isinstance(arg, list) else None
     t = Table.from_adjacency(arg)
+    if held is not None and arg != held:
+        raise Violation("input-modified", "from_adjacency changed the list "
+                        "of lines it was given: %r -> %r" % (held, arg))
     snap = observe.snapshot(t)
     cells = Counter()
     for o, s, v in recs:
@@ -464,9 +470,8 @@ def check_malformed(case, rec):
         # counts, so "ID counts disagree with the matrix shape" is only
         # expressible with inputs that carry a shape of their own
         form = "csr" if form == "dict" else "ndarray"
-    data, kw = gen.encode(a.tolist(), {"ndarray": "dense", "csr": "csr",
-                                        "lists": "lists",
-                                        "dict": "dict"}[form])
+    rec.cls("malformed-form:" + form)
+    data, kw = encode(a.tolist(), form)
     try:
         t = Table(data, obs, samp, omd, smd, **kw)
     except TableException:
